@@ -129,7 +129,7 @@ func negate(cond string) string {
 
 // textDeco says which member decorations are also run with text siblings around the chain.
 func textDeco(name string) bool {
-	return name == "plain" || name == "tmpl-all" || strings.HasPrefix(name, "for-")
+	return name == "plain" || name == "tmpl-all" || strings.HasPrefix(name, "for-") || strings.HasPrefix(name, "foronce-")
 }
 
 // enumShapes yields every case of family A; yield returns false to stop. With full=false (quick
@@ -194,6 +194,13 @@ func enumShapes(full bool, yield func(Case) bool) {
 								ms[k].For = 2
 								if k == 0 {
 									ms[k].For = 1 // see the package comment: one item, so both directive orders agree
+								}
+							}})
+							decos = append(decos, deco{"foronce-" + strconv.Itoa(k), func(ms []Node, _, _ map[string]vals.V) {
+								// v-for and v-once together: the chosen member renders its first instance
+								ms[k].For, ms[k].Once = 2, true
+								if k == 0 {
+									ms[k].For = 1
 								}
 							}})
 							if k >= 1 {
@@ -535,8 +542,8 @@ func enumComp(yield func(Case) bool) {
 // specified values for condition variables: the documented part of the table.
 var condValues = func() []vals.V {
 	var out []vals.V
-	for _, v := range append(vals.Scalars(), vals.Containers()...) {
-		if _, spec := v.Truthy(); spec {
+	for _, v := range append(append(vals.Scalars(), vals.Containers()...), namedValues...) {
+		if _, spec := valTruthy(v); spec {
 			out = append(out, v)
 		}
 	}
@@ -621,6 +628,7 @@ func (g *nestGen) chain(depth int, loopVars []string, firstSep string) []Node {
 			if rapid.IntRange(0, 2).Draw(g.t, "forkids") == 0 {
 				n.Kids = g.kids(depth+1, loopVars, false)
 			}
+			n.Once = rapid.IntRange(0, 2).Draw(g.t, "foronce") == 0
 		case 4, 5, 6:
 			n.Kids = g.kids(depth+1, loopVars, false)
 		case 7:
@@ -726,7 +734,11 @@ func genCondValue(t *rapid.T, label string) vals.V {
 	if boolsOnly || rapid.IntRange(0, 9).Draw(t, label+"b") < 5 {
 		return vals.Bool(rapid.Bool().Draw(t, label))
 	}
-	return condValues[rapid.IntRange(0, len(condValues)-1).Draw(t, label+"v")]
+	v := condValues[rapid.IntRange(0, len(condValues)-1).Draw(t, label+"v")]
+	if namedZeroOpen && namedZeroRegion(v) {
+		return vals.Bool(false) // region of the open finding C03-named-bool-string-zero-truthy
+	}
+	return v
 }
 
 // genNest draws a random forest (chains inside chains inside loops) and its data.
@@ -879,6 +891,13 @@ func genAnyValue(t *rapid.T, depth int) vals.V {
 func genValue(rec *ev.Rec, open map[string]bool) func(*rapid.T) TruthCase {
 	return func(t *rapid.T) TruthCase {
 		c := TruthCase{Val: genAnyValue(t, 0)}
+		if rapid.IntRange(0, 5).Draw(t, "named") == 0 {
+			c.Val = namedValues[rapid.IntRange(0, len(namedValues)-1).Draw(t, "nv")]
+			if open[fNamedZero] && namedZeroRegion(c.Val) {
+				rec.Excluded(fNamedZero)
+				c.Val = named(c.Val.K, map[string]string{"Flag": "true", "Name": "x"}[c.Val.K])
+			}
+		}
 		// the positions on the plain name plus all positions of one operand form (the table runs
 		// every form for its fixed values)
 		fs := allForms()
